@@ -58,8 +58,14 @@ def grids(tier):
     for mask in itertools.product((False, True), repeat=2):
         out.append({"kind": "cart", "shape": [12, 12], "dx": [1.0, 1.0], "origin": [0.0, 0.0], "periodic": list(mask)})
     out.append({"kind": "cart", "shape": [14, 11], "dx": [0.8, 1.0], "origin": [-3.0, 2.0], "periodic": [True, False]})
-    for mask in ((False, False, False), (True, False, True)):
+    for mask in (itertools.product((False, True), repeat=3) if tier == "thorough" else ((False, False, False), (True, False, True))):
         out.append({"kind": "cart", "shape": [8, 8, 8], "dx": [1.0, 1.0, 1.0], "origin": [0.0, 0.0, 0.0], "periodic": list(mask)})
+    if tier == "thorough":
+        for mask in itertools.product((False, True), repeat=2):
+            out.append({"kind": "cart", "shape": [16, 10], "dx": [0.5, 1.25], "origin": [2.0, -7.0], "periodic": list(mask)})
+        out.append({"kind": "cart", "shape": [7, 9, 8], "dx": [1.0, 0.8, 1.25], "origin": [-1.0, 0.0, 3.0], "periodic": [False, True, False]})
+        out.append({"kind": "cart", "shape": [24], "dx": [0.5], "origin": [-3.0], "periodic": [True]})
+        out.append({"kind": "cart", "shape": [24], "dx": [0.5], "origin": [-3.0], "periodic": [False]})
     out.append({"kind": "polar", "n": 12, "R": 12.0})
     out.append({"kind": "sph", "n": 12, "R": 12.0})
     out.append({"kind": "sph", "n": 40, "R": 10.0, "fine": True})
@@ -76,7 +82,9 @@ def blocks(tier, seed):
     for gi, g in enumerate(grids(tier)):
         for img in (("clean", "noisy", "noise", "constant", "affine") if not g.get("fine") else ()):
             for lv in LEVELS:
-                out.append({"grid": g, "image": img, "levels": lv, "variant": seed % 3, "tier": tier})
+                # thorough: every noise lattice variant, not only the one selected by the seed
+                for variant in (range(3) if (tier == "thorough" and img in ("noisy", "noise")) else [seed % 3]):
+                    out.append({"grid": g, "image": img, "levels": lv, "variant": variant, "tier": tier})
         # image that the model cannot represent exactly (superposition of two profiles) x lattice of (radius, width) candidates:
         # candidates close to the optimum of the plain squared deviation are the ones a wrong objective would worsen
         for lv in ("fixed", "auto+fit"):
@@ -103,7 +111,7 @@ def truth_for(g):
     if k == "cart":
         dim = len(g["shape"])
         c = [o + (n * 0.45 + 0.2) * d for o, n, d in zip(g["origin"], g["shape"], g["dx"])]
-        return c, (3.1 if dim == 2 else 2.3), 1.0
+        return c, (3.1 if dim <= 2 else 2.3), 1.0
     if k in ("polar", "sph"):
         if g.get("fine"):
             return [0.0] * (2 if k == "polar" else 3), 4.6, 1.0
@@ -115,7 +123,7 @@ def candidates(g, tier, img):
     """candidate specs: (class, modes, width, state)"""
     k = g["kind"]
     dim = geom.dim_of(g)
-    pert = {("cart", 2): "PerturbedDroplet2D", ("cart", 3): "PerturbedDroplet3D", ("cyl", 3): "PerturbedDroplet3DAxisSym", ("polar", 2): "PerturbedDroplet2D", ("sph", 3): "PerturbedDroplet3D"}[(k, dim)]
+    pert = {("cart", 2): "PerturbedDroplet2D", ("cart", 3): "PerturbedDroplet3D", ("cyl", 3): "PerturbedDroplet3DAxisSym", ("polar", 2): "PerturbedDroplet2D", ("sph", 3): "PerturbedDroplet3D"}.get((k, dim))
     states = ["truth", "displaced", "wrong-radius"]
     if k == "cart" and any(g["periodic"]):
         states.append("outside")
@@ -126,6 +134,8 @@ def candidates(g, tier, img):
         for w in ((None, 0.0, 1.0) if not slow else (1.0,)):
             out.append(("DiffuseDroplet", 0, w, st))
     modes = (1, 2, 4) if not slow else (2,)
+    if pert is None:
+        modes = ()  # no perturbed class in one dimension
     if dim == 3 and k != "cyl":
         modes = (3,) if tier != "thorough" else (1, 3)
     for m in modes:
